@@ -1,7 +1,8 @@
-/* C05: lean QString boundary for harness groups whose strings are all *constant literals* (QStringLiteral / u"..." arrays)
-   selected by a symbolic index.  Replaces models/qt_core.c in those groups: no heap blocks, no abstract numbers, no
-   base64 tags - only what the mechanism choice reaches.  Layout is Qt's: QString{d}, d -> QArrayData{ref,size,alloc,offset}
-   followed by the UTF-16 units.  Every loop has the constant bound C05_MAXLEN (longest mechanism name + slack, asserted). */
+/* C05: lean QString boundary for the groups whose strings are all STATIC data: string literals of the real code (QStringLiteral,
+   u"..." arrays) and the name slots below (a table row selected by a symbolic index).  Replaces models/qt_core.c in those
+   groups: no heap blocks, no abstract numbers, no base64 tags - only what the mechanism choice reaches.  Layout is Qt's:
+   QString{d}, d -> QArrayData{ref,size,alloc,offset} followed by the UTF-16 units.  Comparisons are straight-line kernels over
+   at most C05_MAXLEN units (longest table name 22; asserted). */
 #ifdef HAVE_T_struct_QArrayData
 typedef struct T_struct_QArrayData QAD;
 #define C05_MAXLEN 24
